@@ -838,6 +838,110 @@ def M_max_by(it, ctx, args, st):
         yield from go(s2, items[0], items[1:])
 
 
+def ord_lt_eq(it, st, ty, a, b):
+    """(a < b, a == b) as z3 Bools for keys of type `ty` (std Ord): integers, bool, char, tuples (lexicographic), Reverse, references"""
+    a = st.deref_all(a) if isinstance(a, Ptr) else a
+    b = st.deref_all(b) if isinstance(b, Ptr) else b
+    if ty[0] == 'ref':
+        return ord_lt_eq(it, st, ty[2], a, b)
+    if ty[0] == 'tuple':
+        lt, eq = z3.BoolVal(False), z3.BoolVal(True)
+        for k, et in enumerate(ty[2]):
+            l2, e2 = ord_lt_eq(it, st, et, a.fields[k], b.fields[k])
+            lt = z3.Or(lt, z3.And(eq, l2))
+            eq = z3.And(eq, e2)
+        return lt, eq
+    if ty[0] == 'path':
+        name = last_seg(ty[1])
+        if name == 'Reverse':
+            l2, e2 = ord_lt_eq(it, st, ty[2][0], a.fields[0], b.fields[0])
+            return z3.And(z3.Not(l2), z3.Not(e2)), e2
+        if name == 'bool':
+            return z3.And(z3.Not(a), b), a == b
+        if name in INT_BITS:
+            return (a < b if name[0] == 'i' else z3.ULT(a, b)), a == b
+        if name == 'char':
+            return z3.ULT(a, b), a == b
+    raise Unsupported('Ord on key type ' + ty_str(ty))
+
+
+def M_sort_by_key(it, ctx, args, st):
+    """slice::sort_by_key: stable; the key function is called on references to the elements (pure closures: stated)"""
+    p, f = args[0], args[1]
+    K = ctx.gargs[0]
+    items = list(st.deref(p).items)
+
+    def keys(st, k, acc):
+        if k == len(items):
+            yield st, acc
+            return
+        for s2, kv in it.call_closure(f, [st.ref(items[k])], st, ctx.fr):
+            if is_abnormal(kv):
+                yield s2, kv
+            else:
+                yield from keys(s2, k + 1, acc + [kv])
+
+    def insert(st, sorted_, x):
+        def go(st, i):
+            if i < 0:
+                yield st, [x] + sorted_
+                return
+            lt, eq = ord_lt_eq(it, st, K, x[0], sorted_[i][0])
+            # stable insertion: x goes after the last element whose key is <= x's key
+            for s3, before in fork_bool(it, st, lt):
+                if before:
+                    yield from go(s3, i - 1)
+                else:
+                    yield s3, sorted_[:i + 1] + [x] + sorted_[i + 1:]
+        yield from go(st, len(sorted_) - 1)
+
+    def run(st, acc, rest):
+        if not rest:
+            st.write(p, Seq(tuple(e for _, e in acc)))
+            yield st, UNIT
+            return
+        for s2, acc2 in insert(st, acc, rest[0]):
+            yield from run(s2, acc2, rest[1:])
+    for s1, ks in keys(st, 0, []):
+        if is_abnormal(ks):
+            yield s1, ks
+        else:
+            yield from run(s1, [], list(zip(ks, items)))
+
+
+def M_max_by_key(it, ctx, args, st, want_min=False):
+    """Iterator::max_by_key: the LAST element with the maximum key (min_by_key: the first with the minimum)"""
+    K = ctx.gargs[0]
+    for s2, items in drain(it, st, as_iter(it, st, args[0]), ctx.fr):
+        if is_abnormal(items):
+            yield s2, items
+            continue
+        if not items:
+            yield s2, it.none
+            continue
+
+        def go(st, best, bestk, rest):
+            if not rest:
+                yield st, it.some(best)
+                return
+            x = rest[0]
+            for s3, kx in it.call_closure(args[1], [st.ref(x)], st, ctx.fr):
+                if is_abnormal(kx):
+                    yield s3, kx
+                    continue
+                lt, eq = ord_lt_eq(it, s3, K, kx, bestk)
+                keep = z3.And(z3.Not(lt), z3.Not(eq)) if False else None
+                # max: replace unless x's key is smaller; min: replace only when x's key is strictly smaller
+                repl = lt if want_min else z3.Not(lt)
+                for s4, r in fork_bool(it, s3, repl):
+                    yield from go(s4, x if r else best, kx if r else bestk, rest[1:])
+        for s3, k0 in it.call_closure(args[1], [s2.ref(items[0])], s2, ctx.fr):
+            if is_abnormal(k0):
+                yield s3, k0
+            else:
+                yield from go(s3, items[0], k0, items[1:])
+
+
 def M_sort_by(it, ctx, args, st):
     p = args[0]
     seq = st.deref(p)
@@ -1336,10 +1440,11 @@ MODELS = [
     (ITER + r'collect::<.*>', M_collect), (ITER + r'count', M_count), (ITER + r'all::<.*>', M_all), (ITER + r'any::<.*>', M_any),
     (ITER + r'find::<.*>', M_find), (ITER + r'fold::<.*>', M_fold), (ITER + r'try_fold::<.*>', M_try_fold),
     (ITER + r'max_by::<.*>', M_max_by),
+    (ITER + r'max_by_key::<.*>', M_max_by_key), (ITER + r'min_by_key::<.*>', lambda it, ctx, args, st: M_max_by_key(it, ctx, args, st, True)),
     (r'<' + P + r'(slice::Iter|iter::\w+|str::Chars|vec::IntoIter|collections::btree_set::Iter|collections::btree_map::Iter)<.*> as ' + P + r'iter::Iterator>::next', M_iter_next),
     (r'<.* as ' + P + r'iter::Iterator>::next', M_iter_next, lambda it, ctx, args, st: is_model_iter(st, args[0])),
     (r'<.* as ' + P + r'iter::IntoIterator>::into_iter', M_into_iter, lambda it, ctx, args, st: is_model_iter(st, args[0]) or is_seq_ptr(st, args[0])),
-    (P + r'slice::<impl \[.*\]>::iter', M_slice_iter), (P + r'slice::<impl \[.*\]>::sort_by::<.*>', M_sort_by),
+    (P + r'slice::<impl \[.*\]>::iter', M_slice_iter), (P + r'slice::<impl \[.*\]>::sort_by::<.*>', M_sort_by), (P + r'slice::<impl \[.*\]>::sort_by_key::<.*>', M_sort_by_key),
     (P + r'slice::<impl \[.*\]>::len', M_vec_len), (P + r'slice::<impl \[.*\]>::is_empty', M_vec_is_empty),
     (P + r'slice::<impl \[.*\]>::contains', M_slice_contains),
     (P + r'collections::BTreeSet::<.*>::iter', M_slice_iter), (P + r'collections::HashMap::<.*>::values', M_slice_iter),
